@@ -302,11 +302,20 @@ Definition s_defvar_q (s : sstate) (p : pkgid) (n : name) (v : Z) (priv : bool) 
               | None => s end
   | None => sas_pkg s p (OSetq n v)
   end.
+(* (fmakunbound 'p:n) / (fmakunbound 'p::n): when the name is visible by the rule of the property (one colon:
+   exported from p, two colons: any definition of p) the function p owns under n is removed, as by
+   (fmakunbound 'n) evaluated in p; an invisible name designates nothing *)
+Definition s_fmakunbound_q (s : sstate) (p : pkgid) (n : name) (priv : bool) : sstate :=
+  match sq_fun s (s_cur s) p n priv with
+  | QUnbound => s
+  | _ => sas_pkg s p (OFmakunbound n)
+  end.
 Definition sxstep (s : sstate) (o : xop) : sstate :=
   match o with
   | XB o => sstep s o
   | XSetqQ p n v priv => s_setq_q s p n v priv
   | XDefvarQ p n v priv => s_defvar_q s p n v priv
+  | XFmakunboundQ p n priv => s_fmakunbound_q s p n priv
   end.
 (* the variable p resolves under n is private, has a value, and p is not the current package: the one place
    where the code's qualified defvar differs from S (known finding C13-defvar-private-qualified-overwrites:
@@ -324,6 +333,11 @@ Definition xguard_step (P : list pkgid) (NM : list name) (s : sstate) (o : xop) 
   | XB o => guard_step P NM s o
   | XSetqQ p n v priv => mem n NM
   | XDefvarQ p n v priv => mem n NM && negb (priv && private_bound_elsewhere s p n)
+  | XFmakunboundQ p n priv =>      (* the clause of (fmakunbound 'n) evaluated in p *)
+      match sq_fun s (s_cur s) p n priv with
+      | QUnbound => true
+      | _ => guard_step P NM (sstep s (OInPkg p)) (OFmakunbound n)
+      end
   end.
 Fixpoint sxrun (P : list pkgid) (VN FN : list name) (s : sstate) (ops : list xop) : list (list qres) :=
   match ops with
